@@ -932,6 +932,13 @@ func (w *Where) Lookup(th *Thread, sels Sels) Row {
 		}
 	}
 	isels, _ := Split(cloned, sels, w.srcIndex)
+	if !selHasKey(isels, w.source.Keys(), w.source.Fixed()) {
+		// sels are only unique together with fixed values that are not in
+		// the source index, so several source rows may match isels
+		w.Select(sels)
+		defer w.Select(nil)
+		return w.Get(th, Next)
+	}
 	row := lookup(w.source, isels, th, w.rowCtx.Tran)
 	if !w.filter(th, row) {
 		row = nil
